@@ -21,7 +21,7 @@ import sys
 from .. import facts as F
 from .. import bitdom as B
 from .. import fsm
-from ..absint import (place_index, Interp, TOP, OPTION, none, some, const_int, mk_int, int_singleton, TRUE, FALSE, BOOL, UNIT, World)
+from ..absint import (Inconclusive, place_index, Interp, TOP, OPTION, none, some, const_int, mk_int, int_singleton, TRUE, FALSE, BOOL, UNIT, World)
 from .common import lib_crate
 from . import C14 as base
 from . import C02
@@ -245,6 +245,7 @@ class StepRule:
         self.steps = set()
         self.problems = []
         self.by_value = set()
+        self.enumerated = False
 
     def inline_ok(self, I, ci, body):
         from .common import pure_helper
@@ -264,12 +265,19 @@ class StepRule:
         if ci.npath == 'core::str::<impl str>::as_bytes':
             return [(w, args[0])]
         if ci.name in ('iter', 'into_iter', 'bytes') and args and args[0][0] == 'sym':
-            if args[0][1].startswith(('iter(', 'zip(')):
+            if args[0][1].startswith(('iter(', 'zip(', 'enumerate(')):
                 return [(w, args[0])]
             nm_ = 'iter(%s)' % args[0][1]
             if ci.name == 'bytes':
                 self.by_value.add(nm_)          # `str::bytes()` yields the bytes themselves, `iter()` references to them
             return [(w, ('sym', nm_))]
+        if ci.name in ('enumerate', 'take_while', 'copied', 'cloned') and args and args[0][0] == 'sym':
+            # adaptors that keep the element order: `enumerate` pairs each element with its exact position (a byte counter
+            # by construction), `take_while` may only end the iteration early
+            if ci.name == 'enumerate':
+                self.enumerated = True
+                return [(w, ('sym', 'enumerate(%s)' % args[0][1]))]
+            return [(w, args[0])]
         if ci.name == 'zip' and len(args) == 2:
             return [(w, ('sym', 'zip(%s,%s)' % (args[0][1] if args[0][0] == 'sym' else '?', args[1][1] if args[1][0] == 'sym' else '?')))]
         if ci.name == 'next' and args:
@@ -280,12 +288,17 @@ class StepRule:
             if prev is not None:
                 self.steps.add((prev, evs, cur))
             name = itv[1] if itv[0] == 'sym' else '?'
+            enum = name.startswith('enumerate(')
+            if enum:
+                name = name[len('enumerate('):-1]
             byv = any(n in name for n in self.by_value)
             wrap = (lambda x: x) if byv else (lambda x: ('ref', ('const', x)))
             if name.startswith('zip('):
                 item = ('tuple', (wrap(('sym', 'b1')), wrap(('sym', 'b2'))))
             else:
                 item = wrap(('sym', 'b'))
+            if enum:
+                item = ('tuple', (('sym', 'position'), item))
             return [(w.with_st((cur, (('over', name),))), some(item)), (w.with_st((cur, (('end', name),))), none())]
         if p.endswith('Utf8Accum::push_byte'):
             prev, evs = w.st
@@ -348,6 +361,8 @@ def check_counting_by_filter(res, lib, f, classes):
     body = I.by_path.get(F.raw_key(clos[1])) if clos[0] == 'closure' else None
     if body is None:
         return False
+    if clos[2] and stateful_filter(res, lib, f, clos, body, classes):
+        return True
     sub = Interp([lib], None)
     env = ('ref', ('const', clos)) if body.body['locals'][1]['ty'].get('k') == 'ref' else clos
     for c in classes:
@@ -374,6 +389,82 @@ def check_counting_by_filter(res, lib, f, classes):
                 f.npath, fsm.cls_name(c), 'the first byte' if exp else 'a continuation byte',
                 sorted(outs), 'once' if exp else 'not at all')))
     res.samples.append("%s: filter/count pipeline judged per byte class" % f.npath)
+    return True
+
+
+def stateful_filter(res, lib, f, clos, body, classes):
+    """`bytes.iter().filter(|&&b| accum.push_byte(b).is_some()).count()`: the predicate carries the scalar decoder as state.
+    It is run, with the decoder inlined, over every well-formed byte-class sequence of Unicode Table 3-7 starting from a
+    fresh decoder and from the state each such sequence leaves behind: it must answer `false` on every byte but the last of
+    a scalar and `true` on the last (so `count()` is the number of scalars), and a completed scalar must leave a state from
+    which the next scalar is judged the same way.  -> True if the closure has this shape (verdicts are recorded)."""
+    from . import C02
+    caps = clos[2]
+    # exactly one captured reference, to a Utf8Accum
+    up = body.body.get('upvars') or []
+    rule = C02.InlineLocal({'utf8::Utf8Accum'})
+    I0 = Interp([lib], rule)
+    try:
+        init = C02.initial_state(I0, lib)
+    except (KeyError, Inconclusive):
+        return False
+    norm = C02.make_normalise(I0)
+    cell = (-1, 0)
+    envv = ('closure', clos[1], tuple(('ref', (cell[0], cell[1], ())) for _ in caps))
+    if len(caps) != 1:
+        return False
+    by_ref_env = body.body['locals'][1]['ty'].get('k') == 'ref'
+
+    def feed(state, c):
+        """-> set of (answer in {0,1}, new state)"""
+        I = Interp([lib], rule)
+        store = {cell: state}
+        env = envv
+        if by_ref_env:
+            store[(-1, 1)] = envv
+            env = ('ref', (-1, 1, ()))
+        item = ('ref', ('const', ('ref', ('const', ('int', c, None)))))
+        out = set()
+        for w, rv in I.run(body, [env, item], None, store):
+            ns = norm(I, w.store[cell])
+            if rv[0] == 'int' and rv[2] is None and len(rv[1]) == 1:
+                out.add((next(iter(rv[1])), ns))
+            else:
+                out.add((None, ns))
+        return out
+    seqs = spec.wellformed_class_sequences(classes)
+    starts = [norm(I0, init)]
+    seen = set(starts)
+    nchk = 0
+    bad = None
+    while starts and bad is None:
+        st0 = starts.pop()
+        for seq in seqs:
+            states = {st0}
+            for k, c in enumerate(seq):
+                want = 1 if k == len(seq) - 1 else 0
+                nxt = set()
+                for st in states:
+                    for ans, ns in feed(st, c):
+                        nchk += 1
+                        if ans != want and bad is None:
+                            bad = (seq, k, ans, want)
+                        nxt.add(ns)
+                states = nxt
+            for ns in states:
+                if ns not in seen and len(seen) < 40:
+                    seen.add(ns)
+                    starts.append(ns)
+    good = bad is None and nchk > 0
+    msg = ''
+    if bad:
+        seq, k, ans, want = bad
+        msg = "%s: in the well-formed sequence %s the %s byte is counted %s, expected %s" % (
+            f.npath, " ".join("[%s]" % fsm.cls_name(c) for c in seq), ['first', 'second', 'third', 'fourth'][k],
+            ans if ans is not None else 'unknown', want)
+    res.oblige("D|%s|stateful-filter|%d" % (f.npath, nchk), good, sample="%s: filter(decoder-stateful predicate).count(): %d steps from %d decoder states"
+               % (f.npath, nchk, len(seen)), violation=None if good else dict(
+                   rule='C17.counting', key="C17|counting|%s|stateful" % f.npath, msg=msg or "%s: predicate could not be evaluated" % f.npath))
     return True
 
 
@@ -484,7 +575,7 @@ def check_counting(res, lib):
         found = {'some': [c for c, bs in behaviour.items() if bs == {('Some', 1), ('None', 0)}],
                  'always': [c for c, bs in behaviour.items() if bs == {('Some', 1), ('None', 1)}]}
         for role in sp['roles']:
-            good = bool(found[role])
+            good = bool(found[role]) or (role == 'always' and rule.enumerated)     # `enumerate()` is a byte counter
             res.oblige("D|%s|role %s" % (np_, role), good, sample="%s: `%s` counter is %s" % (np_, role, found[role]),
                        violation=None if good else dict(
                            rule='C17.counting', key="C17|counting|%s|role-%s" % (np_, role),
